@@ -232,6 +232,10 @@ def install_loop_rule(it):
             if isinstance(iterable, SymSeq):
                 raise Unsupported(f'loop {key} over symbolic sequence without invariant')
             return None
+        try:
+            spec.stmt = st            # specifications may read roles off the loop statement instead of naming locals
+        except Exception:
+            pass
         if callable(getattr(spec, 'applies', None)) and not spec.applies(it, env, iterable):
             return None
         from .values import RangeV
